@@ -223,7 +223,7 @@ static void addStimulus(sim::ReferenceSimulator &s, const Params &p, const Built
 			for (auto &o : b.outs) (void)o.read();
 		}
 		for (int step = 0; step < p.steps; step++) {
-			unsigned kind = (unsigned)r.below(5);
+			unsigned kind = (unsigned)r.below(6);
 			const Clock &c = b.clocks[r.below(b.clocks.size())];
 			bool readOnly = false;
 			switch (kind) {
@@ -231,6 +231,7 @@ static void addStimulus(sim::ReferenceSimulator &s, const Params &p, const Built
 				case 1: co_await AfterClk(c); break;
 				case 2: co_await WaitFor(randomWait(r, p.wait)); break;
 				case 3: co_await WaitStable(); readOnly = true; break;
+				case 5: co_await sim::WaitClock(c.getClk(), sim::WaitClock::BEFORE); break;
 				default: co_await WaitFor(randomWait(r, p.wait)); break;
 			}
 			if (!readOnly) {
